@@ -620,6 +620,26 @@ func (n *normalizer) sroaEdits(f *ast.File) []textEdit {
 			if inAssign[id] {
 				return true
 			}
+			// (&x).f - the spelling a substituted pointer receiver leaves behind - is x.f
+			if len(stack) >= 3 {
+				if ue, ok := stack[len(stack)-2].(*ast.UnaryExpr); ok && ue.Op == token.AND && ue.X == ast.Expr(id) {
+					k := len(stack) - 3
+					for k >= 0 {
+						if _, isP := stack[k].(*ast.ParenExpr); !isP {
+							break
+						}
+						k--
+					}
+					if k >= 0 {
+						if sel, ok := stack[k].(*ast.SelectorExpr); ok && unparen(sel.X) == ast.Expr(ue) {
+							if s := info.Selections[sel]; s != nil && s.Kind() == types.FieldVal && len(s.Index()) == 1 {
+								c.sels = append(c.sels, sel)
+								return true
+							}
+						}
+					}
+				}
+			}
 			if len(stack) >= 2 {
 				if sel, ok := stack[len(stack)-2].(*ast.SelectorExpr); ok && sel.X == ast.Expr(id) {
 					if s := info.Selections[sel]; s != nil && s.Kind() == types.FieldVal && len(s.Index()) == 1 {
